@@ -41,8 +41,11 @@ VARIABLES imports,      \* imports[f]: sequence of distinct files
           paths, excludes,
           wktSupplied,
           noSyntaxD,    \* d.proto has no syntax declaration
-          planted       \* "none" | "missing-import" (in a) | "syntax" (in c) | "unresolved" (in b)
-vars == <<imports, unused, targetA, targetB, paths, excludes, wktSupplied, noSyntaxD, planted>>
+          planted,      \* "none" | "missing-import" (in a) | "syntax" (in c) | "unresolved" (in b)
+          protoRef,     \* a single .proto file of module A given as the input ("none": the modules are the input)
+          includePkg,   \* ...#include_package_files=true
+          pkgMode       \* "distinct": every file its own package; "ab-same": a and b share one; "ab-none": a and b declare none
+vars == <<imports, unused, targetA, targetB, paths, excludes, wktSupplied, noSyntaxD, planted, protoRef, includePkg, pkgMode>>
 
 Init ==
   /\ \E ia \in SeqsNoRepeat(MayImport("a"), MaxImportsA) :
@@ -57,8 +60,14 @@ Init ==
   /\ wktSupplied \in BOOLEAN
   /\ noSyntaxD \in BOOLEAN
   /\ planted \in {"none", "missing-import", "syntax", "unresolved"}
-  /\ (IF paths # {} THEN 1 ELSE 0) + (IF excludes # {} THEN 1 ELSE 0) + (IF targetA /\ targetB THEN 0 ELSE 1)
-       + (IF wktSupplied THEN 1 ELSE 0) + (IF noSyntaxD THEN 1 ELSE 0) + (IF unused # <<>> THEN 1 ELSE 0) <= MaxDev
+  /\ protoRef \in {"none", "a", "b", "c"} /\ includePkg \in BOOLEAN /\ pkgMode \in {"distinct", "ab-same", "ab-none"}
+  \* a file reference replaces every other selection and makes module A the only target
+  /\ (protoRef # "none" => (targetA /\ ~targetB /\ paths = {} /\ excludes = {} /\ planted = "none" /\ unused = <<>> /\ ~wktSupplied /\ ~noSyntaxD
+                             /\ Len(imports["a"]) <= 1))
+  /\ (protoRef = "none" => (~includePkg /\ pkgMode = "distinct"))
+  /\ (IF paths # {} THEN 1 ELSE 0) + (IF excludes # {} THEN 1 ELSE 0) + (IF (targetA /\ targetB) \/ protoRef # "none" THEN 0 ELSE 1)
+       + (IF wktSupplied THEN 1 ELSE 0) + (IF noSyntaxD THEN 1 ELSE 0) + (IF unused # <<>> THEN 1 ELSE 0)
+       + (IF protoRef # "none" THEN 1 ELSE 0) <= MaxDev
   \* planted errors are explored on the plain selection only
   /\ (planted # "none" => (paths = {} /\ excludes = {} /\ targetA /\ targetB /\ unused = <<>> /\ ~noSyntaxD))
 Next == UNCHANGED vars
@@ -69,11 +78,18 @@ Spec == Init /\ [][Next]_vars
 InWorkspace(f) == f # "wkt" \/ wktSupplied
 ModuleTargeted(f) == LET o == OwnerOf(f, wktSupplied) IN (o = "A" /\ targetA) \/ (o = "B" /\ targetB)
 InAny(S, f) == \E p \in S : IsPrefixSeq(p, PathOf[f])
-\* --path / --exclude-path apply to every targeted module
+\* the package a file declares ("" = none)
+PkgOf(f) == IF f \in {"a", "b"} /\ pkgMode = "ab-same" THEN "shared"
+            ELSE IF f \in {"a", "b"} /\ pkgMode = "ab-none" THEN "" ELSE "p" \o f
+\* --path / --exclude-path apply to every targeted module; a file reference targets that file and, if asked, the
+\* other files of the module that declare the same, non-empty, package
 IsTarget(f) ==
-  /\ InWorkspace(f) /\ ModuleTargeted(f)
-  /\ (paths = {} \/ InAny(paths, f))
-  /\ (excludes = {} \/ ~InAny(excludes, f))
+  IF protoRef # "none"
+  THEN /\ OwnerOf(f, wktSupplied) = "A"
+       /\ (f = protoRef \/ (includePkg /\ PkgOf(protoRef) # "" /\ PkgOf(f) = PkgOf(protoRef)))
+  ELSE /\ InWorkspace(f) /\ ModuleTargeted(f)
+       /\ (paths = {} \/ InAny(paths, f))
+       /\ (excludes = {} \/ ~InAny(excludes, f))
 Targets == {f \in Files : IsTarget(f)}
 SortedTargets == LET idx == {i \in 1..Len(FileOrder) : FileOrder[i] \in Targets} IN
   [k \in 1..Cardinality(idx) |-> FileOrder[CHOOSE i \in idx : Cardinality({j \in idx : j < i}) = k - 1]]
@@ -129,6 +145,7 @@ PlantedSurfaces == planted # "none" /\ PlantedFile \in Reach(Targets)
 EmitCase == Emit => PrintT(<<"CASE", ToJson(
   [imports |-> imports, unused |-> unused, targetA |-> targetA, targetB |-> targetB, paths |-> paths, excludes |-> excludes,
    wktSupplied |-> wktSupplied, noSyntaxD |-> noSyntaxD, planted |-> planted,
+   protoRef |-> protoRef, includePkg |-> includePkg, pkgMode |-> pkgMode,
    noTargets |-> Targets = {},
    error |-> IF PlantedSurfaces THEN PlantedFile ELSE "none",
    image |-> IF PlantedSurfaces \/ Targets = {} THEN <<>> ELSE ExpectedImage])>>)
